@@ -40,8 +40,8 @@ T = {
  "C13b": ("C13", "a statement fault on the INSERT of SaveLastSentCertificate when a row of that height exists", "C13: aggsender monitor 'a failed SaveLastSentCertificate changed the stored records' (SQL-trigger faults on each statement of the save)"),
  "C06a": ("C06", "restart of a subscriber that tracked blocks in an earlier run", None),
  "C06b": ("C06", "notification ordering around the removal of tracked blocks", None),
- "C09a": ("C09", "two info updates in one L1 block followed by one in a later block, claims against the newer leaves", None),
- "C09b": ("C09", "a rollup-origin claim with leaf index >= 2", None),
+ "C09a": ("C09", "an older finalized L1 block whose last info update has a higher log position than the newest finalized leaf, and a claim against a leaf newer than the one picked", "C09: aggsender monitor 'L1 info leaf index … is not below the certificate's leaf count' / proof does not verify (several leaves per L1 block with increasing positions)"),
+ "C09b": ("C09", "a rollup-origin claim with leaf index >= 2", "C09: aggsender monitor 'the exit leaf does not hash with proof_leaf_ler to the stated local exit root' + claimdata correspondence; also C08 (tree scenario uses tree.CalculateRoot)"),
  "C12a": ("C12", "bridge followed by several info updates; first covering index is not the first leaf", None),
  "C12b": ("C12", "tree node storage stops early (storeNodes break)", None),
 }
